@@ -141,6 +141,8 @@ type Gen struct {
 	globalAddr map[*ssa.Global]int
 	frameDone bool
 	abstractMod bool
+	stableSuffix []string        // struct fields no callee writes (ASSUMED, from `stable` clauses): pkg_Type_field
+	stableSeen   map[string]bool
 	frameNothing bool
 	allocOrder map[*ssa.Alloc]int
 	inputReads []inputRead
@@ -524,6 +526,9 @@ func (g *Gen) heapGet(st *State, name, sort string) string {
 		}
 	}
 	id := st.gen
+	if g.isStable(name) {
+		id = 0
+	}
 	if p, ok := st.pend[name]; ok && p > id {
 		id = p
 	}
@@ -545,6 +550,20 @@ func (g *Gen) heapGet(st *State, name, sort string) string {
 	}
 	st.heap[name] = n
 	return n
+}
+
+// isStable: heap map of a struct field named in a `stable` clause (matched on the package_Type_field suffix).
+func (g *Gen) isStable(name string) bool {
+	if !strings.HasPrefix(name, "F_") {
+		return false
+	}
+	for _, sfx := range g.stableSuffix {
+		if name == "F_"+sfx || strings.HasSuffix(name, "_"+sfx) {
+			g.stableSeen[sfx] = true
+			return true
+		}
+	}
+	return false
 }
 
 func (g *Gen) fieldMapName(stType types.Type, fi int) (string, string, *Sort) {
